@@ -256,6 +256,17 @@ def r05_8(ctx, rep):
     every_model_attempted(ctx, rep, "R05.8")
 
 
+@SPEC.rule(
+    "R05.9",
+    "a later request finds what an earlier one found: no function of tree.py or of the compiler tool iterates, inside a loop over requests, a "
+    "one-shot iterator (generator expression, map, filter, zip) that was created in front of that loop — the first request exhausts it",
+)
+def r05_9(ctx, rep):
+    from ._literal import no_reused_iterators
+    no_reused_iterators(ctx, rep, "R05.9", "src/pymoca/tree.py", "the flattening passes", 10)
+    no_reused_iterators(ctx, rep, "R05.9", "tools/compiler.py", "the compiler tool", 3)
+
+
 # -- seeded variants ---------------------------------------------------------
 from ._mut import replace_in_func  # noqa: E402
 
